@@ -67,6 +67,17 @@ pub struct Scenario {
     /// the pre-filled target is longer than any document (a previous, larger output)
     #[serde(default)]
     pub long_sentinel: bool,
+    /// the pre-filled target is not valid UTF-8 (a stale file in another encoding)
+    #[serde(default)]
+    pub binary_sentinel: bool,
+}
+
+fn sentinel_bytes(scn: &Scenario) -> Vec<u8> {
+    let mut b = sentinel(scn).into_bytes();
+    if scn.binary_sentinel {
+        b.extend_from_slice(b"title: caf\xe9 \xff\xfe\n");
+    }
+    b
 }
 
 fn sentinel(scn: &Scenario) -> String {
@@ -132,6 +143,14 @@ fn config_text(scn: &Scenario) -> String {
 }
 
 pub fn execute(c: &Cfg, world: &World, scn: &Scenario) -> Outcome {
+    execute_inner(c, world, scn, None)
+}
+
+fn execute_with_planted_target(c: &Cfg, world: &World, scn: &Scenario, _tp: &std::path::Path, content: &[u8]) -> Outcome {
+    execute_inner(c, world, scn, Some(content))
+}
+
+fn execute_inner(c: &Cfg, world: &World, scn: &Scenario, planted: Option<&[u8]>) -> Outcome {
     let config = config_text(scn);
     world.reset(&config, &scn.files);
     let root = world.root.canonicalize().expect("root");
@@ -165,8 +184,10 @@ pub fn execute(c: &Cfg, world: &World, scn: &Scenario) -> Outcome {
         }
         _ => {}
     }
-    if scn.prefilled && scn.fault != Fault::TargetIsDir && !target_dir_missing(scn) {
-        std::fs::write(&tpath, sentinel(scn)).expect("scratch");
+    if let Some(content) = planted {
+        std::fs::write(&tpath, content).expect("scratch");
+    } else if scn.prefilled && scn.fault != Fault::TargetIsDir && !target_dir_missing(scn) {
+        std::fs::write(&tpath, sentinel_bytes(scn)).expect("scratch");
     }
     let trace_path = root.parent().unwrap().join("trace.txt");
     let _ = std::fs::remove_file(&trace_path);
@@ -281,7 +302,7 @@ fn trace_order(scn: &Scenario, o: &Outcome) -> Option<Violation> {
 
 fn target_untouched(scn: &Scenario, o: &Outcome) -> bool {
     if scn.prefilled && !target_dir_missing(scn) {
-        o.target.as_deref() == Some(sentinel(scn).as_bytes())
+        o.target.as_deref() == Some(sentinel_bytes(scn).as_slice())
     } else {
         o.target.is_none() && !o.target_is_file
     }
@@ -359,7 +380,12 @@ pub fn check_fault_free(scn: &Scenario, o: &Outcome) -> Option<Violation> {
             if scn.verbosity >= 0 && o.stderr.trim().is_empty() {
                 return v("no-diagnostic-printed", format!("sources fail at {phase:?} ({msg}) with empty stderr"));
             }
-            if matches!(phase, Phase::Syntax | Phase::Compile | Phase::Eval) && !scn.files.keys().any(|p| o.stderr.contains(&format!("$WS/{p}"))) {
+            let named = |p: &String| {
+                // locators are URLs: a blank or a non-ASCII letter appears percent-encoded
+                let enc = url::Url::from_file_path(format!("/{p}")).map(|u| u.path()[1..].to_string()).unwrap_or_default();
+                o.stderr.contains(&format!("$WS/{p}")) || o.stderr.contains(&format!("$WS/{enc}"))
+            };
+            if matches!(phase, Phase::Syntax | Phase::Compile | Phase::Eval) && !scn.files.keys().any(named) {
                 return v("diagnostic-not-located", format!("sources fail at {phase:?} ({msg}); stderr names no source: {}", o.stderr.chars().take(300).collect::<String>()));
             }
         }
@@ -554,7 +580,29 @@ pub fn run_scenario(c: &Cfg, world: &World, scn: &Scenario) -> Checked {
         let mut fresh = base.clone();
         fresh.prefilled = false;
         let of = execute(c, world, &fresh);
-        if of.exit == Some(0) && of.target != o0.target {
+        if of.exit == Some(0) && of.target == o0.target && of.target.is_some() {
+            // ...also when the existing file is the same document in other bytes
+            // (a comment line, CRLF line ends): the target must end up as the fresh bytes
+            let doc = String::from_utf8_lossy(of.target.as_deref().unwrap_or_default()).to_string();
+            let reformatted = format!("# reformatted by hand\r\n{}", doc.replace('\n', "\r\n"));
+            let root = world.root.canonicalize().expect("root");
+            let tp = root.join(target_name(&fresh));
+            let mut again = fresh.clone();
+            again.prefilled = false;
+            // execute() resets the directory, so the file is planted through a marker scenario
+            let o2 = execute_with_planted_target(c, world, &again, &tp, reformatted.as_bytes());
+            if o2.exit == Some(0) && o2.target != of.target {
+                violation = v(
+                    "target-depends-on-previous-content",
+                    format!(
+                        "an existing target holding the same document in other bytes (comment, CRLF) was left with {} bytes; a fresh target gets {} bytes",
+                        o2.target.as_ref().map(|t| t.len()).unwrap_or(0),
+                        of.target.as_ref().map(|t| t.len()).unwrap_or(0)
+                    ),
+                );
+            }
+        }
+        if violation.is_none() && of.exit == Some(0) && of.target != o0.target {
             violation = v(
                 "target-depends-on-previous-content",
                 format!(
@@ -806,6 +854,7 @@ pub fn run(seed: u64, run: u64) -> Report {
         target_rel,
         verbosity,
         long_sentinel: wl.chance(1, 2),
+        binary_sentinel: wl.chance(1, 4),
     };
     probes.push(["config_options", "config_file", "options_override_file"][scn.config_mode as usize].to_string());
     if scn.with_base {
